@@ -87,8 +87,12 @@ func Pack(
 		return wareID, err
 	}
 	// Close all the intermediate writer layers to ensure they've flushed.
-	tarWriter.Close()
-	gzWriter.Close()
+	if err := tarWriter.Close(); err != nil {
+		return wareID, Errorf(rio.ErrWarehouseUnwritable, "error while writing pack: %s", err)
+	}
+	if err := gzWriter.Close(); err != nil {
+		return wareID, Errorf(rio.ErrWarehouseUnwritable, "error while writing pack: %s", err)
+	}
 
 	// If we made it all the way with no errors, commit.
 	//  (Otherwise, the write controller will be closed by default by our defers.)
